@@ -20,7 +20,8 @@ CONSTANTS V1Line, V2Line, \* the two recognised first lines (abstract: <<1>>, <<
           ZMark,          \* the marker line 4 must contain ("zlib"; abstract: <<2>>)
           MaxBody,        \* bound on the (decompressed) body length
           DevDropCarry,   \* mutant: header remainder not carried into the first compressed chunk
-          DevKeepLast     \* (unused here; keeps cfgs uniform)
+          DevKeepLast,    \* (unused here; keeps cfgs uniform)
+          DevDropRest     \* as found (repaired): an unterminated last line of a v2 body is never delivered
 
 NL == 10
 AbsV1 == <<1>>
@@ -124,8 +125,10 @@ Split == /\ phase = "v2body" /\ HasNl(dbuf)
          /\ LET p == FirstNl(dbuf) IN /\ out' = Append(out, Take(dbuf, p - 1))
                                       /\ dbuf' = Drop(dbuf, p)
          /\ UNCHANGED <<file, body, isv2, stream, zleft, cleft, buffer, eof, phase, ver, hdr>>
+(* end of the chunks: what is left in the buffer is the last (unterminated) line *)
 Finish == /\ phase = "v2body" /\ eof /\ ~HasNl(dbuf) /\ phase' = "done"
-          /\ UNCHANGED <<file, body, isv2, stream, zleft, cleft, buffer, eof, ver, hdr, dbuf, out>>
+          /\ out' = IF dbuf # <<>> /\ ~DevDropRest THEN Append(out, dbuf) ELSE out
+          /\ UNCHANGED <<file, body, isv2, stream, zleft, cleft, buffer, eof, ver, hdr, dbuf>>
 
 ReadMore  == \E r \in Reads : ReadMoreR(r)
 BodyChunk == \E r \in Reads : BodyChunkR(r)
@@ -151,7 +154,9 @@ ValidHeader == /\ HL(1) \in {V1Line, V2Line}
                /\ (HL(1) = V2Line => Contains(HL(4), ZMark))
 
 (* chunking independence: the entry lines depend on the bytes only *)
-ExpectedOut == IF HL(1) = V1Line THEN NonEmpty(SplitNl(body) \o <<Rest(body)>>) ELSE SplitNl(body)
+(* (v1 drops empty lines; v2 keeps them -- the entry parser skips them -- but an empty remainder is no line) *)
+ExpectedOut == IF HL(1) = V1Line THEN NonEmpty(SplitNl(body) \o <<Rest(body)>>)
+               ELSE SplitNl(body) \o (IF Rest(body) # <<>> THEN <<Rest(body)>> ELSE <<>>)
 Correct   == phase = "done" => out = ExpectedOut /\ hdr[2] = HL(2) /\ hdr[3] = HL(3)
 ErrorIff  == (phase = "error" => ~ValidHeader) /\ (phase = "done" => ValidHeader)
 (* byte conservation while reading a v2 body *)
